@@ -25,3 +25,6 @@ echo "== check $ID $TIER against the change"
 ( cd /verif && VERIF_REPO=$WT ./run $ID $TIER 2>&1 | grep -v 'rapid\] draw' | grep 'VIOLATION\|KNOWN-FINDING\|INCONCLUSIVE\|seed=\|_test.go:[0-9]*: [^\[]' | cut -c1-330 | head -8 )
 echo "exit=$?"
 echo "== demo: see $SRC/run.txt"; cat $SRC/run.txt 2>/dev/null | head -5
+# clean up: the scratch worktree and its own build directory
+git -C /repo worktree remove --force $WT 2>/dev/null
+rm -rf /verif/build/alt-$(printf %s "$WT" | sha1sum | cut -c1-10)
